@@ -560,6 +560,9 @@ impl<'a> Gen<'a> {
                 4 => "len:enum".to_string(),
                 _ => "len:peek".to_string(),
             }
+        } else if self.rng.pct(18) {
+            // consuming methods (std defaults in terms of next)
+            ["count", "last", "collect"][self.rng.below(3) as usize].to_string()
         } else if self.rng.pct(75) {
             "drop".to_string()
         } else {
